@@ -2,6 +2,7 @@
    runner and by the generated in-Coq case files. *)
 From Coq Require Import ZArith List Bool.
 From Gabi Require Import Val ModArith Bytes Der Sha256 HashTool GoSem ParamsDef ZkProof Keys RangeProof NonRev Core CL Prover RangeSound Revocation NonRevProver Keyshare MathUtil Codec FilePerm KeyDoc EventList.
+From Gabi Require Sqrt.
 From Gabi Require Cache Concurrency KeyGen KeyProofWire.
 Import ListNotations.
 Open Scope Z_scope.
@@ -312,6 +313,18 @@ Definition d_update_prepend (v : val) : val := ret (
   | _ => None
   end).
 
+Definition d_prime_sqrt (v : val) : val := ret (
+  match v with
+  | VL [a; p] => do a <- as_Z a; do p <- as_Z p; Some (of_outcome of_oZ (Sqrt.prime_sqrt a p))
+  | _ => None
+  end).
+
+Definition d_mod_sqrt (v : val) : val := ret (
+  match v with
+  | VL [a; f] => do a <- as_Z a; do f <- as_LZ f; Some (of_outcome of_oZ (Sqrt.mod_sqrt a f))
+  | _ => None
+  end).
+
 Definition d_uncompress (v : val) : val := ret (
   match v with
   | VL [cp; c] =>
@@ -535,6 +548,8 @@ Definition dispatch (fn : Z) (v : val) : val :=
   | 1906 => d_rp_candidate v
   | 1907 => d_sieve v
   | 1908 => d_prepare_bytes v
+  | 1909 => d_prime_sqrt v
+  | 1910 => d_mod_sqrt v
   | 1201 => d_proves_statement v
   | 1202 => d_proven_statement v
   | 1204 => d_range_verify v
